@@ -143,6 +143,9 @@ func TestVerifC03(t *testing.T) {
 		n = 3000
 	}
 	for i := 0; i < n; i++ {
+		if ltsAbort() {
+			break
+		}
 		s := genC03Script(rng)
 		o.line("lts "+s, ltsPlay(s))
 	}
@@ -155,8 +158,15 @@ func TestVerifC03(t *testing.T) {
 	idx := 0
 	for _, n := range sizes {
 		for k := 0; k < rounds; k++ {
+			if ltsAbort() {
+				break
+			}
 			r := &vrng{s: vseed() + uint64(idx)*7919}
-			o.line(c03Stress(r, n, idx))
+			req, obs := c03Stress(r, n, idx)
+			if obs != "accept" {
+				ltsStuck += 3
+			}
+			o.line(req, obs)
 			idx++
 		}
 	}
